@@ -116,12 +116,21 @@ func (t *Thread) RunContinuation(c Cont) (err error) {
 			}
 			err = rtErr.AddContext(c, -1)
 			errContCount++
-			if t.messageHandler != nil && t.messageHandlerThread != nil && t.messageHandlerThread != t {
-				// The message handler of the current context belongs to
-				// another thread (the contexts are shared by all threads): an
-				// error in a coroutine resumed from there goes to the
-				// coroutine boundary first, unhandled.
-				return err
+			if t.messageHandler != nil {
+				// The message handler of the current context belongs to the
+				// thread that installed it (the contexts are shared by all
+				// threads); one installed through the Runtime itself (no
+				// owning thread, e.g. the root context of the golua command)
+				// belongs to the main thread.  An error in a coroutine
+				// resumed from there goes to the coroutine boundary first,
+				// unhandled: its resumer gets the value that was raised.
+				owner := t.messageHandlerThread
+				if owner == nil {
+					owner = t.mainThread
+				}
+				if owner != t {
+					return err
+				}
 			}
 			if t.messageHandler != nil {
 				if errContCount > maxErrorsInMessageHandler {
